@@ -27,7 +27,7 @@ import (
 
 func init() {
 	mon.RegisterCfg("C10", mon.Config{
-		Rule: "generated fonts (TrueType with nested/shared composites, simple CFF with built-in encodings, CID-keyed CFF with several font dictionaries; GSUB 1.1/4.1 and GPOS 2.1 only, no GDEF) x duplicate-free glyph lists starting with 0 (every size class, random order, cutting through composites, ligature components and kerning pairs); glyphs are identified by a content signature (recursive outline, box, width, name, CID, private dictionary, font matrix) so that the new->old map is recovered without trusting the subsetter; every cmap key and every code point, every encoding slot, every kerning pair and every substitution rule are compared through that map; the subset is written and read back. distinct = distinct (font, list) pairs (hash)",
+		Rule: "generated fonts (TrueType with nested/shared composites, simple CFF with built-in encodings, CID-keyed CFF with several font dictionaries; GSUB 1.1/4.1 and GPOS 2.1 only, no GDEF) x duplicate-free glyph lists starting with 0 (every size class, random order, cutting through composites, ligature components and kerning pairs); glyphs are identified by a content signature (recursive outline, box, width, name, CID, private dictionary, font matrix) so that the new->old map is recovered without trusting the subsetter; every cmap key and every code point, every encoding slot, every kerning pair and every substitution rule are compared through that map; the subset is written and read back. distinct = distinct (font, list) pairs (hash) The glyph list is reused by the caller after Subset; undecoded character map subtables (formats 10, 13, 14, Macintosh non-Roman) must be left out or right; fully used built-in encodings.",
 		Assumptions: []string{
 			"glyphs whose content signature is not unique in the original font are excluded from the clauses that need the inverse index map (counted as skipped)",
 			"layout data restricted to what the subsetter declares supported (GSUB 1.1/4.1, GPOS 2.1, no GDEF)",
